@@ -48,6 +48,11 @@ CLAIMED = {
         "technique": "def-use signature co-indexing; structural dispatch checks; write-effect summaries applied to loop-invariant arguments of delayed() tasks; sibling agreement of bucket-key expressions",
         "note": _COMMON_NOTE + " Declined: probabilities summing to one, labels in classes_ (depends on label values), bucket semantics of arbitrary binners.",
     },
+    "C09": {
+        "text": "Structural part only. Python side: per-leaf rows/targets/weights are co-indexed, fit and predict number leaves through the same predict_leaves and index betas_ by its result, and the intercept column is appended where the Cython criterion writes the constant feature (cross-language agreement). Cython side (sources parsed with Cython's own parser and converted to Python ast, nothing is compiled or run): every _mse call receives the mean and weight computed by _mean on the same index range, left = (start, pos), right = (pos, end); update/reset/reverse_reset move pos and the side weights together; the fast criterion's prefix-sum reads have the form S[hi-1] - (S[lo-1] if lo > 0 else 0), the fill is cumulative, and the zero-fill invariant that two lower-term-free reads rely on is present. NOT claimed: that impurities equal the true weighted MSE / least-squares residual for every (start, pos, end) — that needs an inductive loop invariant or numerical oracle.",
+        "technique": "def-use co-indexing; sibling agreement across languages; range/mean/weight triple matching and prefix-sum read shapes on Cython parse trees",
+        "note": _COMMON_NOTE + " The compiled extensions cannot be built offline here, so the analysis says nothing about binaries; Cython's parser is trusted to yield the tree the compiler would see. Central numerical claims of C09 are explicitly not decided.",
+    },
 }
 
 NOT_APPLICABLE = {}
